@@ -3,12 +3,15 @@
 package c18
 
 import (
+	"encoding/hex"
+	"encoding/json"
 	"fmt"
 	"math"
 	"sort"
 	"strconv"
 	"strings"
 	"testing"
+	"unicode/utf8"
 
 	"github.com/aclements/go-moremath/graph"
 	"github.com/aclements/go-moremath/graph/graphalg"
@@ -741,10 +744,40 @@ func sameEdgeSets(a, b [][2]int) bool {
 
 // ---------------------------------------------------------------- Dot
 
+// BS is a string of arbitrary bytes (Go strings and dot strings are byte strings) that survives
+// the JSON of a replay file: valid UTF-8 is written as a JSON string, anything else as
+// {"hex": "..."} - encoding/json would turn the invalid bytes into U+FFFD.
+type BS string
+
+func (b BS) MarshalJSON() ([]byte, error) {
+	if utf8.ValidString(string(b)) {
+		return json.Marshal(string(b))
+	}
+	return json.Marshal(map[string]string{"hex": hex.EncodeToString([]byte(b))})
+}
+
+func (b *BS) UnmarshalJSON(d []byte) error {
+	var s string
+	if json.Unmarshal(d, &s) == nil {
+		*b = BS(s)
+		return nil
+	}
+	var m map[string]string
+	if err := json.Unmarshal(d, &m); err != nil {
+		return err
+	}
+	raw, err := hex.DecodeString(m["hex"])
+	if err != nil {
+		return err
+	}
+	*b = BS(raw)
+	return nil
+}
+
 type AttrSpec struct {
 	Name string  `json:"name"`
 	Kind string  `json:"kind"` // string, int, uint, float, literal
-	S    string  `json:"s,omitempty"`
+	S    BS      `json:"s,omitempty"`
 	I    int     `json:"i,omitempty"`
 	F    float64 `json:"f,omitempty"`
 }
@@ -760,7 +793,7 @@ func (a AttrSpec) attr() graphout.DotAttr {
 	case "literal":
 		return graphout.DotAttr{Name: a.Name, Val: graphout.DotLiteral(a.S)}
 	}
-	return graphout.DotAttr{Name: a.Name, Val: a.S}
+	return graphout.DotAttr{Name: a.Name, Val: string(a.S)}
 }
 
 func (a AttrSpec) rendered() (string, bool) { // value text; quoted?
@@ -770,15 +803,15 @@ func (a AttrSpec) rendered() (string, bool) { // value text; quoted?
 	case "float":
 		return fmt.Sprintf("%v", a.F), false
 	case "literal":
-		return a.S, false
+		return string(a.S), false
 	}
-	return a.S, true
+	return string(a.S), true
 }
 
 type DotCase struct {
 	Adj       [][]int      `json:"adj"`
-	Name      string       `json:"name"`
-	Labels    []string     `json:"labels"` // nil: default labels
+	Name      BS           `json:"name"`
+	Labels    []BS         `json:"labels"` // nil: default labels
 	NodeAttrs [][]AttrSpec `json:"node_attrs"`
 	EdgeAttrs [][]AttrSpec `json:"edge_attrs"` // indexed by node, applies to every edge of the node
 }
@@ -788,9 +821,9 @@ var checkDot = ev.Register("dot", func(c *DotCase) ev.Outcome {
 	if !validAdj(c.Adj) || (c.Labels != nil && len(c.Labels) != n) || (c.NodeAttrs != nil && len(c.NodeAttrs) != n) || (c.EdgeAttrs != nil && len(c.EdgeAttrs) != n) {
 		return ev.Fail("harness error: dot case")
 	}
-	d := graphout.Dot{Name: c.Name}
+	d := graphout.Dot{Name: string(c.Name)}
 	if c.Labels != nil {
-		d.Label = func(v int) string { return c.Labels[v] }
+		d.Label = func(v int) string { return string(c.Labels[v]) }
 	}
 	// The attribute callbacks hand out windows of ONE table each (a caller's static table of
 	// attributes): every returned slice has spare capacity that runs into the next node's
@@ -832,8 +865,8 @@ var checkDot = ev.Register("dot", func(c *DotCase) ev.Outcome {
 	if err != nil {
 		return ev.Fail("Dot output does not parse: %v\n%s", err, text)
 	}
-	if g.name != c.Name {
-		return ev.Fail("graph name unescapes to %q, want %q\n%s", g.name, c.Name, text)
+	if g.name != string(c.Name) {
+		return ev.Fail("graph name unescapes to %q, want %q\n%s", g.name, string(c.Name), text)
 	}
 	// what each node must say about itself (as a canonical signature), and each edge
 	wantNode := make([]string, n)
@@ -851,9 +884,9 @@ var checkDot = ev.Register("dot", func(c *DotCase) ev.Outcome {
 		if !haveLabel {
 			l := fmt.Sprintf("%d", v)
 			if c.Labels != nil {
-				l = c.Labels[v]
+				l = string(c.Labels[v])
 			}
-			attrs = append(attrs, AttrSpec{Name: "label", Kind: "string", S: l})
+			attrs = append(attrs, AttrSpec{Name: "label", Kind: "string", S: BS(l)})
 		}
 		wantNode[v] = wantSig(attrs)
 	}
@@ -909,10 +942,24 @@ var checkDot = ev.Register("dot", func(c *DotCase) ev.Outcome {
 	for _, w := range wantNode {
 		distinct[w] = true
 	}
-	special := strings.ContainsAny(c.Name+strings.Join(c.Labels, ""), "\"\\\n{}<>|")
+	all := string(c.Name)
+	for _, l := range c.Labels {
+		all += string(l)
+	}
+	special := strings.ContainsAny(all, "\"\\\n{}<>|")
 	cl := []string{"dot-plain"}
 	if special {
 		cl = []string{"dot-special-characters"}
+	}
+	for _, as := range append(append([][]AttrSpec{}, c.NodeAttrs...), c.EdgeAttrs...) {
+		for _, a := range as {
+			all += string(a.S)
+		}
+	}
+	if !utf8.ValidString(all) {
+		cl = append(cl, "dot-strings-not-utf8")
+	} else if len(all) != utf8.RuneCountInString(all) {
+		cl = append(cl, "dot-strings-multibyte")
 	}
 	if len(distinct) == n {
 		cl = append(cl, "dot-nodes-identifiable")
@@ -1377,7 +1424,28 @@ func TestDot(t *testing.T) {
 	ev.Rule(rule)
 	// the dot language gives \\n, \\l, \\r, \\N, \\G, \\E, \\T, \\H, \\L a meaning of their own: every letter
 	// that can follow a backslash is in the alphabet, next to the characters DotString escapes
-	str := rapid.StringOfN(rapid.RuneFrom([]rune("ab \"\\\n{}<>|;,]=[-nlrNGETHLt0\t")), 0, 8, -1)
+	ascii := rapid.StringOfN(rapid.RuneFrom([]rune("ab \"\\\n{}<>|;,]=[-nlrNGETHLt0\t")), 0, 8, -1)
+	// Go strings are byte strings: multi-byte UTF-8 (e9 as c3 a9, the euro sign, U+FFFD itself) and
+	// bytes that are not UTF-8 at all (Latin-1 text, a truncated sequence, ff fe) must come back
+	// byte for byte as well
+	valid := []string{"a", "b", " ", "\"", "\\", "\n", "{", "}", "<", ">", "|", "n", "\u00e9", "\u20ac", "\ufffd", "\U0001f600", "\u0301"}
+	invalid := []string{"\xe9", "\xff", "\xfe", "\x80", "\xc3", "\xe2\x82", "\xc0\xaf", "\xf0\x9f", "\xed\xa0\x80"}
+	str := rapid.Custom(func(rt *rapid.T) BS {
+		mode := rapid.IntRange(0, 3).Draw(rt, "byteString")
+		if mode <= 1 {
+			return BS(ascii.Draw(rt, "s"))
+		}
+		pool := valid
+		if mode == 3 {
+			pool = append(append([]string{}, invalid...), valid...)
+		}
+		k := rapid.IntRange(1, 6).Draw(rt, "slen")
+		out := ""
+		for i := 0; i < k; i++ {
+			out += rapid.SampledFrom(pool).Draw(rt, "token")
+		}
+		return BS(out)
+	})
 	attr := func(rt *rapid.T) AttrSpec {
 		a := AttrSpec{Name: rapid.SampledFrom([]string{"color", "shape", "weight", "label", "tooltip"}).Draw(rt, "aname"),
 			Kind: rapid.SampledFrom([]string{"string", "int", "uint", "float", "literal"}).Draw(rt, "akind")}
@@ -1391,7 +1459,7 @@ func TestDot(t *testing.T) {
 		case "float":
 			a.F = float64(rapid.IntRange(-40, 40).Draw(rt, "fval")) / 8
 		default:
-			a.S = rapid.SampledFrom([]string{"red", "box", "1.5", "n1", "true"}).Draw(rt, "lit")
+			a.S = BS(rapid.SampledFrom([]string{"red", "box", "1.5", "n1", "true"}).Draw(rt, "lit"))
 		}
 		return a
 	}
@@ -1405,7 +1473,7 @@ func TestDot(t *testing.T) {
 			for i := 0; i < n; i++ {
 				l := str.Draw(rt, "label")
 				if uniq {
-					l += string(rune('A' + i))
+					l += BS(rune('A' + i))
 				}
 				c.Labels = append(c.Labels, l)
 			}
